@@ -822,6 +822,7 @@ class Directive:
         self.span_upto = None
         self.span_semi = False
         self.span_before = False
+        self.span_tail = False
         self.span_block = None
         self.bytesconst = False
 
@@ -1036,7 +1037,26 @@ def _render_span(d, it, repo_root, registry):
     toks = sf.toks
     if it.body_open is None:
         raise ExtractError("anchor lost: span needs a function with a body")
-    if d.span_block:
+    if d.span_tail:
+        k = it.body_open + 1
+        last_semi = it.body_open
+        while k < it.body_close:
+            if toks[k].text in "([{":
+                k = sf.br[k] + 1
+                continue
+            if toks[k].text == ";":
+                last_semi = k
+            k += 1
+        j = sf.next_sig(last_semi + 1)
+        if j >= it.body_close:
+            raise ExtractError("anchor lost: %s has no tail expression" % it.name)
+        e = it.body_close - 1
+        while toks[e].kind in TRIVIA:
+            e -= 1
+        f = (j, j)
+        u = None
+        end = e + 1
+    elif d.span_block:
         b = find_seq(sf, it.body_open, it.body_close, d.span_block)
         if not b:
             raise ExtractError("anchor lost: block anchor %r not found in %s" % (d.span_block, it.name))
@@ -1058,7 +1078,7 @@ def _render_span(d, it, repo_root, registry):
         if not u:
             raise ExtractError("anchor lost: span end %r not found in %s" % (d.span_upto, it.name))
         j = u[1]
-    if d.span_block:
+    if d.span_block or d.span_tail:
         pass
     elif d.span_before:
         end = u[0]
@@ -1293,7 +1313,7 @@ def render_item(d, it, repo_root, registry):
     return out
 
 
-OPTION_KW = ("ret", "req", "ens", "props", "loop", "closure", "rule", "attr", "dropattr", "canary", "rename", "prefix", "from", "upto", "uptosemi", "before", "block", "bytesconst", "count")
+OPTION_KW = ("ret", "req", "ens", "props", "loop", "closure", "rule", "attr", "dropattr", "canary", "rename", "prefix", "from", "upto", "uptosemi", "before", "tail", "block", "bytesconst", "count")
 _lab_re = re.compile(r"^(req|ens|inv)(\[([^\]]+)\])?\s+(.*)$", re.S)
 
 
@@ -1397,6 +1417,9 @@ def parse_options(d, lines, unit_name):
             # the span is the first `{...}` block that follows the text (e.g. the body of a match arm `Ok(mut buffer) =>`),
             # braces included: it becomes the body of the wrapper function in the template
             d.span_block = rest
+        elif w == "tail":
+            # the span is the tail expression of the function body (what follows the last `;` at the top level of the body)
+            d.span_tail = True
         elif w == "before":
             # the span ends right before the (first) statement that starts with the text
             d.span_upto = rest
